@@ -458,8 +458,8 @@ class Inliner:
         is the result (no copy through a temporary)."""
         tmp = self._last_target(rep)
         if rep and isinstance(rep[-1], ast.Assign) and isinstance(rep[-1].targets[0], ast.Name) and rep[-1].targets[0].id == tmp \
-                and isinstance(rep[-1].value, ast.Name) and \
-                not any(isinstance(n, ast.Name) and n.id == tmp for st in rep[:-1] for n in ast.walk(st)):
+                and not any(isinstance(n, ast.Name) and n.id == tmp for st in rep[:-1] for n in ast.walk(st)):
+            # the returned expression is evaluated exactly where the temporary would have been assigned
             return rep[:-1], rep[-1].value
         return rep, ast.Name(id=tmp, ctx=ast.Load())
 
